@@ -115,6 +115,8 @@ def case_cli(run, i):
     ploidy = 1 + (i % 4)
     male_ref = bool((i // 4) % 2)
     th = _thresholds(rng, i)
+    if i % 4 == 1:
+        th = tuple(sorted(set(th) | {0.0}))          # a threshold of exactly zero (the help text's own example: -t=-1,0,1)
     chrpre = "chr" if i % 3 else ""
     n = int(rng.integers(5, 60))
     chroms = sorted(rng.choice(["3", "X", "Y"], n), key=["3", "X", "Y"].index)
